@@ -208,7 +208,7 @@ func TestECRecover(t *testing.T) {
 	rec := ev.Get(ID)
 	rec.SetRule(rule)
 	g := genECRec()
-	rec.Check(t, "ecrecover", ev.N(50, 3000), func(rt *rapid.T) {
+	checkSerial(rec, t, "ecrecover", ev.N(50, 3000), func(rt *rapid.T) {
 		c := g.Draw(rt, "case")
 		rec.Report(rt, "ecrecover", c, runECRec(c))
 	})
@@ -426,7 +426,7 @@ func TestExpmod(t *testing.T) {
 		}
 		return ExpmodCase{Base: hx(val("base")), Exp: hx(val("exp")), Mod: hx(val("mod"))}
 	})
-	rec.Check(t, "expmod", ev.N(1, 8), func(rt *rapid.T) {
+	checkSerial(rec, t, "expmod", ev.N(1, 8), func(rt *rapid.T) {
 		c := g.Draw(rt, "case")
 		rec.Report(rt, "expmod", c, runExpmod(c))
 	})
